@@ -216,29 +216,28 @@ func autoExhaust(c *mon.Ctx, idx int64, r *rand.Rand) {
 		c.Violate("C04/auto-pid/panic", "auto-exhaust", idx, fmt.Sprintf("%v\n%s", v, st), data)
 		return
 	}
-	// which PIDs does the Muxer own now? WriteData on an unknown PID is refused with ErrPIDNotFound before anything else happens.
-	// Whatever the numbering policy: every successful Add made one more distinct PID known (so there are explicit+ok of them; with
-	// only 8190 usable values more than that many successes cannot all be distinct), and none of them is the PAT, PMT or null PID
-	d := &astits.MuxerData{PES: &astits.PESData{Header: &astits.PESHeader{StreamID: 0xe0, OptionalHeader: &astits.PESOptionalHeader{MarkerBits: 2}}, Data: []byte{1}}}
+	// which PIDs does the Muxer own now? RemoveElementaryStream tells (ErrPIDNotFound for a PID that is not a stream of the Muxer); the
+	// scenario ends here, so removing them is harmless. Whatever the numbering policy: every successful Add made one more distinct
+	// PID a stream (explicit+ok of them; with only 8190 usable values more successes than that cannot all be distinct), and none
+	// of them is the PAT, PMT or null PID
 	owned := 0
 	for pid := 0; pid <= 0x1fff; pid++ {
-		d.PID = uint16(pid)
 		var err error
-		if pn, v, st = mon.Guarded(func() { _, err = m.WriteData(d) }); pn {
+		if pn, v, st = mon.Guarded(func() { err = m.RemoveElementaryStream(uint16(pid)) }); pn {
 			c.Violate("C04/auto-pid/panic", "auto-exhaust", idx, fmt.Sprintf("%v\n%s", v, st), data)
 			return
 		}
-		if errors.Is(err, astits.ErrPIDNotFound) {
+		if err != nil {
 			continue
 		}
 		owned++
 		if pid == 0 || pid == 0x1000 || pid == 0x1fff {
-			c.Violate("C04/auto-pid/reserved-pid-assigned", "auto-exhaust", idx, fmt.Sprintf("pid %#x (PAT / PMT / null packets) is an elementary stream of the Muxer (WriteData returned %v)", pid, err), data)
+			c.Violate("C04/auto-pid/reserved-pid-assigned", "auto-exhaust", idx, fmt.Sprintf("pid %#x (PAT / PMT / null packets) was an elementary stream of the Muxer", pid), data)
 			return
 		}
 	}
 	if owned != len(explicit)+ok {
-		c.Violate("C04/auto-pid/assignments-not-distinct", "auto-exhaust", idx, fmt.Sprintf("%d explicit and %d automatic additions succeeded, WriteData knows %d PIDs", len(explicit), ok, owned), data)
+		c.Violate("C04/auto-pid/assignments-not-distinct", "auto-exhaust", idx, fmt.Sprintf("%d explicit and %d automatic additions succeeded, RemoveElementaryStream found %d PIDs", len(explicit), ok, owned), data)
 		return
 	}
 	if out.Len()%188 != 0 {
